@@ -1,5 +1,4 @@
-import Ivg.Model.Encoder
-import Ivg.Model.Decoder
+import Ivg.Lemmas.Codec
 /-!
 # Colour codec lemmas (color.go, encode/buffer.go ↔ decode/buffer.go)
 
@@ -12,20 +11,9 @@ import Ivg.Model.Decoder
 namespace Ivg.ColorCodec
 open Ivg Num
 
-/-! ## exhaustive checks over bytes -/
+/-! ## exhaustive checks over bytes (the `∀ x : UInt8` instance is `Codec.decForallUInt8`) -/
 
-theorem forall_uint8_iff {p : UInt8 → Prop} :
-    (∀ x, p x) ↔ ∀ i : Fin 256, p (UInt8.ofNat i.val) := by
-  constructor
-  · intro h i; exact h _
-  · intro h x
-    have := h ⟨x.toNat, x.toNat_lt⟩
-    simpa using this
-
-/-- `decide` can enumerate all 256 bytes -/
-instance decForallUInt8 {p : UInt8 → Prop} [DecidablePred p] : Decidable (∀ x, p x) :=
-  decidable_of_iff _ forall_uint8_iff.symm
-
+open Codec in
 theorem forall_lt16 {p : UInt8 → Prop} (h : ∀ i : Fin 16, p (UInt8.ofNat i.val)) :
     ∀ x : UInt8, x < 16 → p x := by
   intro x hx
@@ -603,5 +591,272 @@ theorem paletteChunk_eq (pal : Palette) :
          else if cols.all RGBA.is2 then [nb ||| 0x40] ++ cols.flatMap palEnc2
          else if cols.all RGBA.is3 then [nb ||| 0x80] ++ cols.flatMap palEnc3
          else [nb ||| 0xc0] ++ cols.flatMap palEnc4)) := rfl
+
+/-! ## the whole suggested-palette chunk -/
+
+/-- trailing entries beyond `explicitCount` are opaque black -/
+theorem explicitCount_spec (l : List RGBA) :
+    Enc.explicitCount l ≤ l.length ∧
+    l = l.take (Enc.explicitCount l) ++ List.replicate (l.length - Enc.explicitCount l) RGBA.black := by
+  unfold Enc.explicitCount
+  have hsplit := List.takeWhile_append_dropWhile (p := (· == RGBA.black)) (l := l.reverse)
+  have hl : l = (l.reverse.dropWhile (· == RGBA.black)).reverse ++
+      (l.reverse.takeWhile (· == RGBA.black)).reverse := by
+    rw [← List.reverse_append, hsplit, List.reverse_reverse]
+  have hlen : (l.reverse.dropWhile (· == RGBA.black)).length +
+      (l.reverse.takeWhile (· == RGBA.black)).length = l.length := by
+    have := congrArg List.length hsplit
+    simp only [List.length_append, List.length_reverse] at this
+    omega
+  refine ⟨by omega, ?_⟩
+  have htake : l.take (l.reverse.dropWhile (· == RGBA.black)).length =
+      (l.reverse.dropWhile (· == RGBA.black)).reverse := by
+    conv => lhs; rw [hl]
+    rw [List.take_left' (by simp)]
+  rw [htake]
+  conv => lhs; rw [hl]
+  congr 1
+  rw [List.eq_replicate_iff]
+  refine ⟨by simp; omega, ?_⟩
+  intro b hb
+  rw [List.mem_reverse] at hb
+  have hall := List.all_takeWhile (l := l.reverse) (p := (· == RGBA.black))
+  have := List.all_eq_true.1 hall b hb
+  simpa using this
+
+
+theorem getElem_set6 (pal : Palette) (i : Nat) (hi : i < 64) (c : RGBA) (j : Nat) (hj : j < 64) :
+    (pal.set6 (UInt8.ofNat i) c)[j] = if i = j then c else pal[j] := by
+  unfold Regs.set6
+  rw [Vector.getElem_set]
+  have : (UInt8.ofNat i).toNat % 64 = i := by
+    simp only [UInt8.toNat_ofNat']; omega
+  simp only [this]
+
+theorem getElem_setFrom (cols : List RGBA) (pal : Palette) (i : Nat) (hic : i + cols.length ≤ 64)
+    (j : Nat) (hj : j < 64) :
+    (setFrom pal i cols)[j] = if i ≤ j then (cols[j - i]?).getD pal[j] else pal[j] := by
+  induction cols generalizing pal i with
+  | nil => simp [setFrom]
+  | cons c cs ih =>
+    simp only [List.length_cons] at hic
+    rw [setFrom, ih _ _ (by omega), getElem_set6 _ _ (by omega) _ _ hj]
+    by_cases h1 : i + 1 ≤ j
+    · have h2 : i ≤ j := by omega
+      have h3 : ¬ i = j := by omega
+      have h4 : j - i = (j - (i + 1)) + 1 := by omega
+      simp only [h1, h2, h3, if_true, if_false, h4, List.getElem?_cons_succ]
+    · by_cases h2 : i = j
+      · subst h2
+        simp [h1]
+      · have h3 : ¬ i ≤ j := by omega
+        simp [h1, h2, h3]
+
+/-- storing the explicit entries over the default palette reconstructs the whole palette -/
+theorem setFrom_explicit (pal : Palette) :
+    setFrom defaultPalette 0 (pal.toList.take (Enc.explicitCount pal.toList)) = pal := by
+  obtain ⟨hle, hdec⟩ := explicitCount_spec pal.toList
+  have hlen : pal.toList.length = 64 := by simp
+  apply Vector.ext
+  intro j hj
+  rw [getElem_setFrom _ _ _ (by simp; omega) j hj]
+  simp only [Nat.zero_le, if_true, Nat.sub_zero]
+  have hd : (defaultPalette)[j] = RGBA.black := by simp [defaultPalette, Regs.const]
+  rw [hd]
+  have hpj : pal[j] = pal.toList[j]'(by omega) := by simp
+  by_cases hjn : j < Enc.explicitCount pal.toList
+  · rw [List.getElem?_take_of_lt hjn, List.getElem?_eq_getElem (by omega)]
+    simp
+  · have hnone : (pal.toList.take (Enc.explicitCount pal.toList))[j]? = none := by
+      rw [List.getElem?_eq_none]; simp; omega
+    rw [hnone, Option.getD_none, hpj]
+    have : pal.toList[j]? = some RGBA.black := by
+      conv => lhs; rw [hdec]
+      rw [List.getElem?_append_right (by simp; omega)]
+      rw [List.getElem?_replicate]
+      simp; omega
+    have h2 := List.getElem?_eq_getElem (l := pal.toList) (i := j) (by omega)
+    rw [h2] at this
+    exact (Option.some.inj this).symm
+
+
+set_option maxRecDepth 100000 in
+theorem palHeader_facts : ∀ n : Fin 64,
+    (1 + ((Enc.byte n.val ||| 0x00) &&& 0x3f).toNat = n.val + 1 ∧ ((Enc.byte n.val ||| 0x00) >>> 6).toNat = 0) ∧
+    (1 + ((Enc.byte n.val ||| 0x40) &&& 0x3f).toNat = n.val + 1 ∧ ((Enc.byte n.val ||| 0x40) >>> 6).toNat = 1) ∧
+    (1 + ((Enc.byte n.val ||| 0x80) &&& 0x3f).toNat = n.val + 1 ∧ ((Enc.byte n.val ||| 0x80) >>> 6).toNat = 2) ∧
+    (1 + ((Enc.byte n.val ||| 0xc0) &&& 0x3f).toNat = n.val + 1 ∧ ((Enc.byte n.val ||| 0xc0) >>> 6).toNat = 3) := by
+  decide +kernel
+
+/-- the header byte and entry bytes of the chunk, with the decoder the header selects -/
+theorem paletteChunk_shape (pal : Palette) (hne : Enc.explicitCount pal.toList ≠ 0)
+    (hp : ∀ c ∈ pal.toList, c.validPremul = true) :
+    ∃ (hdr : UInt8) (body : Bytes) (dec : Bytes → Option (Color × Bytes)),
+      Enc.paletteChunk pal = Enc.encodeNatural 1 ++ hdr :: body ∧
+      1 + (hdr &&& 0x3f).toNat = Enc.explicitCount pal.toList ∧
+      (match (hdr >>> 6).toNat with
+        | 0 => Dec.decodeColor1 | 1 => Dec.decodeColor2 | 2 => Dec.decodeColor3Direct
+        | _ => Dec.decodeColor4) = dec ∧
+      body.length ≤ 256 ∧
+      ∀ (p0 : Palette) (rest : Bytes),
+        (Dec.decodePaletteColors dec (Enc.explicitCount pal.toList) 0 p0 (body ++ rest)).map (·.2) =
+          some (setFrom p0 0 (pal.toList.take (Enc.explicitCount pal.toList)), rest) := by
+  obtain ⟨hle, _⟩ := explicitCount_spec pal.toList
+  have hlen : pal.toList.length = 64 := by simp
+  generalize hn1 : Enc.explicitCount pal.toList = n1 at *
+  have hcl : (pal.toList.take n1).length = n1 := by simp; omega
+  have hpc : ∀ c ∈ pal.toList.take n1, c.validPremul = true :=
+    fun c hc => hp c (List.mem_of_mem_take hc)
+  obtain ⟨⟨a1, a2⟩, ⟨b1, b2⟩, ⟨c1, c2⟩, ⟨d1, d2⟩⟩ := palHeader_facts ⟨n1 - 1, by omega⟩
+  simp only at a1 a2 b1 b2 c1 c2 d1 d2
+  have hflat : ∀ (enc : RGBA → Bytes) (k : Nat), (∀ c, (enc c).length = k) →
+      ((pal.toList.take n1).flatMap enc).length ≤ 64 * k := by
+    intro enc k hk
+    have : ∀ l : List RGBA, (l.flatMap enc).length = l.length * k := by
+      intro l; induction l with
+      | nil => simp
+      | cons c cs ih => simp only [List.flatMap_cons, List.length_append, ih, hk, List.length_cons]; rw [Nat.add_mul]; omega
+    rw [this, hcl]
+    exact Nat.mul_le_mul_right _ (by omega)
+  rw [paletteChunk_eq]
+  simp only [hn1]
+  by_cases e1 : (pal.toList.take n1).all (fun c => (Color.rgbaColor c).encode1.isSome) = true
+  · refine ⟨Enc.byte (n1 - 1) ||| 0x00, (pal.toList.take n1).flatMap palEnc1, Dec.decodeColor1,
+      by rw [if_pos e1]; rfl, by omega, by simp only [a2], ?_, ?_⟩
+    · have := hflat palEnc1 1 (by
+        intro c; unfold palEnc1 Enc.paletteChunk.encodeColor1'; split <;> rfl)
+      omega
+    · intro p0 rest
+      have := paletteBody1 _ hpc e1 0 p0 rest
+      rwa [hcl] at this
+  · rw [if_neg e1]
+    by_cases e2 : (pal.toList.take n1).all RGBA.is2 = true
+    · refine ⟨Enc.byte (n1 - 1) ||| 0x40, (pal.toList.take n1).flatMap palEnc2, Dec.decodeColor2,
+        by rw [if_pos e2]; rfl, by omega, by simp only [b2], ?_, ?_⟩
+      · have := hflat palEnc2 2 (by
+          intro c; unfold palEnc2 Enc.paletteChunk.encodeColor2'; split <;> rfl)
+        omega
+      · intro p0 rest
+        have := paletteBody2 _ hpc e2 0 p0 rest
+        rwa [hcl] at this
+    · rw [if_neg e2]
+      by_cases e3 : (pal.toList.take n1).all RGBA.is3 = true
+      · refine ⟨Enc.byte (n1 - 1) ||| 0x80, (pal.toList.take n1).flatMap palEnc3, Dec.decodeColor3Direct,
+          by rw [if_pos e3]; rfl, by omega, by simp only [c2], ?_, ?_⟩
+        · have := hflat palEnc3 3 (by intro c; rfl)
+          omega
+        · intro p0 rest
+          have := paletteBody3 _ e3 hpc 0 p0 rest
+          rwa [hcl] at this
+      · rw [if_neg e3]
+        refine ⟨Enc.byte (n1 - 1) ||| 0xc0, (pal.toList.take n1).flatMap palEnc4, Dec.decodeColor4,
+          rfl, by omega, by simp only [d2], ?_, ?_⟩
+        · have := hflat palEnc4 4 (by intro c; rfl)
+          omega
+        · intro p0 rest
+          have := paletteBody4 _ hpc 0 p0 rest
+          rwa [hcl] at this
+
+
+/-- `Encoder.reset` writes the chunk iff the palette differs from the default; then there is at
+    least one explicit entry -/
+theorem explicitCount_ne_zero (pal : Palette) (h : pal ≠ defaultPalette) :
+    Enc.explicitCount pal.toList ≠ 0 := by
+  intro h0
+  apply h
+  have := setFrom_explicit pal
+  rw [h0] at this
+  simpa [setFrom] using this.symm
+
+/-- **Suggested-palette chunk round trip**: for a palette that is not all opaque black and whose
+    entries are valid premultiplied colours, the chunk `Encoder.reset` writes (length prefix,
+    identifier 1, header byte, entries in the shortest common format, trailing black trimmed) is
+    decoded by `decodeMetadataChunk` to exactly that palette, consuming exactly the chunk. -/
+theorem paletteChunk_decodes (pal : Palette) (hne : Enc.explicitCount pal.toList ≠ 0)
+    (hp : ∀ c ∈ pal.toList, c.validPremul = true) (m : Dec.Metadata)
+    (hm : m.palette = defaultPalette) (minMID : Nat) (hmin : minMID ≤ 1) (rest : Bytes) :
+    ∃ its, Dec.decodeMetadataChunk m minMID
+        (Enc.encodeNatural (Enc.paletteChunk pal).length ++ Enc.paletteChunk pal ++ rest) =
+      (its, .ok ({ m with palette := pal }, 2, rest)) := by
+  obtain ⟨hdr, body, dec, hshape, hcount, hdec, hblen, hloop⟩ := paletteChunk_shape pal hne hp
+  subst hdec
+  have hL : (Enc.paletteChunk pal).length = 2 + body.length := by
+    rw [hshape]; simp [Codec.encodeNatural_length, Codec.natWidth]; omega
+  have hn1 := Codec.decodeNatural_encodeNatural (Enc.paletteChunk pal).length
+    (by rw [hL]; omega) (Enc.paletteChunk pal ++ rest)
+  have hn2 : Dec.decodeNatural (Enc.paletteChunk pal ++ rest) = some (1, 1, hdr :: (body ++ rest)) := by
+    rw [hshape, List.append_assoc]
+    have := Codec.decodeNatural_encodeNatural 1 (by decide) (hdr :: body ++ rest)
+    simpa [Codec.natWidth] using this
+  have hloop' := hloop m.palette rest
+  rw [hm, setFrom_explicit pal] at hloop'
+  unfold Dec.decodeMetadataChunk
+  rw [List.append_assoc, hn1]
+  simp only [hn2]
+  have g1 : ¬ (1 ≥ 2) := by omega
+  have g2 : ¬ (1 < minMID) := by omega
+  have g3 : ¬ ((1 : Nat) = 0) := by omega
+  simp only [g1, g2, g3, if_false, hcount, hm]
+  generalize hdp : Dec.decodePaletteColors _ (Enc.explicitCount pal.toList) 0 defaultPalette (body ++ rest) = r
+      at hloop' ⊢
+  match r, hloop' with
+  | none, h => simp at h
+  | some (its, pal', rest'), h =>
+    simp only [Option.map_some, Option.some.injEq, Prod.mk.injEq] at h
+    obtain ⟨h1, h2⟩ := h
+    subst h1 h2
+    have hw : ¬ ((rest'.length : Int) ≠ ((Enc.paletteChunk pal' ++ rest').length : Int) -
+        ((Enc.paletteChunk pal').length : Int)) := by
+      simp only [List.length_append]; omega
+    simp only [if_neg hw]
+    exact ⟨_, rfl⟩
+
+
+/-! ## SetCReg at the instruction level -/
+
+/-- `Dec.decodeStyling` on a SetCReg opcode: it runs exactly `decoderFor opcode` on the operand bytes
+    and delivers `SetCReg(adj, incr, c)` with the decoded colour -/
+theorem decodeStyling_setCReg (opcode : UInt8) (h1 : 0x80 ≤ opcode) (h2 : opcode < 0xa8)
+    (rest : Bytes) (c : Color) (rest' : Bytes) (hd : decoderFor opcode rest = some (c, rest')) :
+    ∃ l0 l1, Dec.decodeStyling (opcode :: rest) =
+      ([.line l0, .line l1,
+        .call (.setCReg (if (opcode &&& 0x07) == 7 then 0 else opcode &&& 0x07) ((opcode &&& 0x07) == 7) c)],
+       .ok (.styling, rest')) ∧ l0.bytes = [opcode] ∧ l1.bytes = Dec.consumed rest rest' ∧
+       l1.kind = .color c := by
+  have n1 : ¬ opcode < 0x80 := by
+    rw [UInt8.le_iff_toNat_le] at h1; rw [UInt8.lt_iff_toNat_lt]; omega
+  unfold Dec.decodeStyling
+  simp only [n1, h2, if_false, if_true]
+  unfold decoderFor at hd
+  generalize ((opcode - 0x80) >>> 3).toNat = sel at hd ⊢
+  rcases sel with _ | _ | _ | _ | n <;> simp only [] at hd ⊢ <;> simp only [hd] <;>
+    exact ⟨_, _, rfl, rfl, rfl, rfl⟩
+
+
+set_option maxRecDepth 100000 in
+theorem creg_opcode_facts : ∀ a : UInt8, a ≤ 7 → ∀ base ∈ [(0x80 : UInt8), 0x88, 0x90, 0x98, 0xa0],
+    0x80 ≤ a ||| base ∧ a ||| base < 0xa8 ∧ (a ||| base) &&& 0x07 = a ∧
+      ((a ||| base) - 0x80) >>> 3 = (base - 0x80) >>> 3 := by
+  decide +kernel
+
+/-- **SetCReg instruction round trip**: the opcode byte `adj | base` and payload that `Encoder.setCReg`
+    writes for a constructible colour are decoded by `Dec.decodeStyling` to the call
+    `SetCReg(adj, incr, c)` with exactly that colour, consuming exactly opcode and payload.
+    (`a = 7` is the incrementing form, as in `Encoder.setCReg`.) -/
+theorem setCReg_instruction (c : Color) (hwf : c.WF) (a : UInt8) (ha : a ≤ 7) (rest : Bytes) :
+    ∃ l0 l1, Dec.decodeStyling ((a ||| (Enc.cregForm c).1) :: ((Enc.cregForm c).2 ++ rest)) =
+      ([.line l0, .line l1, .call (.setCReg (if a == 7 then 0 else a) (a == 7) c)],
+       .ok (.styling, rest)) ∧
+      l0.bytes = [a ||| (Enc.cregForm c).1] ∧ l1.bytes = (Enc.cregForm c).2 ∧ l1.kind = .color c := by
+  have hb : (Enc.cregForm c).1 ∈ [(0x80 : UInt8), 0x88, 0x90, 0x98, 0xa0] := by
+    rcases cregForm_base c with h | h | h | h | h <;> simp [h]
+  obtain ⟨f1, f2, f3, f4⟩ := creg_opcode_facts a ha _ hb
+  have hdec : decoderFor (a ||| (Enc.cregForm c).1) = decoderFor (Enc.cregForm c).1 := by
+    unfold decoderFor; rw [f4]
+  have hd := cregForm_decodes c hwf rest
+  rw [← hdec] at hd
+  obtain ⟨l0, l1, h, hl0, hl1, hk⟩ := decodeStyling_setCReg _ f1 f2 _ c rest hd
+  rw [f3] at h
+  exact ⟨l0, l1, h, hl0, by rw [hl1, Codec.consumed_append], hk⟩
 
 end Ivg.ColorCodec
